@@ -1,124 +1,5 @@
-(* C04 — flat-integer interface of the model for the generic OCaml driver.
-
-   input:   G P   P x (gang kind)   G x (min mode policy groupMask)   N   N x (code a b c d e)
-   op codes: 1 PodAdd p node | 2 PodUpdate p node terminated | 3 PodDelete p
-             4 PGAdd g min mode policy mask | 5 PGUpdate g ... | 6 PGDelete g
-             7 Permit p | 8 Unreserve p | 9 PostBind p | 10 AfterPostFilter p
-   observable, per op:  res allowedMask rejectedMask fwMask   then for gang 1..G
-             exists init strict policy min groupMask fromCrd sat children pending waiting bound (masks) *)
-From Coq Require Import List ZArith Bool.
-From Verif Require Import Lib.Wire C04.Model C04.Spec.
-Import ListNotations.
-Open Scope Z_scope.
-
-Definition range1 (n : nat) : list Z := map Z.of_nat (seq 1 n).
-Definition range0 (n : nat) : list Z := map Z.of_nat (seq 0 n).
-
-Definition mask_group (G : nat) (m : Z) : list Z := filter (fun g => Z.testbit m (g - 1)) (range1 G).
-Definition bits (m : Z) : list Z := filter (fun i => Z.testbit m i) (range0 62).
-Definition mask_of (l : list Z) : Z := fold_left (fun acc p => Z.lor acc (Z.shiftl 1 p)) l 0.
-Definition gmask_of (l : list Z) : Z := fold_left (fun acc g => Z.lor acc (Z.shiftl 1 (g - 1))) l 0.
-
-Fixpoint decode_pods (k : nat) (l : list Z) : list (Z * bool) * list Z :=
-  match k, l with
-  | S k', g :: kind :: t => let '(r, rest) := decode_pods k' t in ((g, zb kind) :: r, rest)
-  | _, _ => ([], l)
-  end.
-
-Fixpoint decode_cfgs (G : nat) (k : nat) (l : list Z) : list cfg * list Z :=
-  match k, l with
-  | S k', mn :: mode :: pol :: m :: t =>
-      let '(r, rest) := decode_cfgs G k' t in (mkCfg mn mode pol (mask_group G m) :: r, rest)
-  | _, _ => ([], l)
-  end.
-
-Definition decode_op (G : nat) (P : Z) (code a b c d e : Z) : op :=
-  let vp := (0 <=? a) && (a <? P) in
-  let vg := (1 <=? a) && (a <=? Z.of_nat G) in
-  let cf := mkCfg b c d (mask_group G e) in
-  if code =? 1 then (if vp then PodAdd a (zb b) else Nop)
-  else if code =? 2 then (if vp then PodUpdate a (zb b) (zb c) else Nop)
-  else if code =? 3 then (if vp then PodDelete a else Nop)
-  else if code =? 4 then (if vg then PGAdd a cf else Nop)
-  else if code =? 5 then (if vg then PGUpdate a cf else Nop)
-  else if code =? 6 then (if vg then PGDelete a else Nop)
-  else if code =? 7 then (if vp then Permit a else Nop)
-  else if code =? 8 then (if vp then Unreserve a else Nop)
-  else if code =? 9 then (if vp then PostBind a else Nop)
-  else if code =? 10 then (if vp then AfterPostFilter a else Nop)
-  else Nop.
-
-Fixpoint decode_ops (G : nat) (P : Z) (k : nat) (l : list Z) : list op :=
-  match k, l with
-  | S k', code :: a :: b :: c :: d :: e :: t => decode_op G P code a b c d e :: decode_ops G P k' t
-  | _, _ => []
-  end.
-
-Definition decode (inp : list Z) : hdr * list op :=
-  match inp with
-  | g :: p :: t =>
-      let G := Z.to_nat g in
-      let '(pods, t1) := decode_pods (Z.to_nat p) t in
-      let '(cfgs, t2) := decode_cfgs G G t1 in
-      match t2 with
-      | n :: t3 => (mkHdr g pods cfgs, decode_ops G p (Z.to_nat n) t3)
-      | [] => (mkHdr g pods cfgs, [])
-      end
-  | _ => (mkHdr 0 [] [], [])
-  end.
-
-(* ---- encoding of the model's observations ---- *)
-Definition encode_gview (o : option gview) : list Z :=
-  match o with
-  | None => [0; 0; 0; 0; 0; 0; 0; 0; 0; 0; 0; 0]
-  | Some x => [1; bz (v_init x); bz (v_strict x); v_policy x; v_min x; gmask_of (v_group x); bz (v_crd x);
-               bz (v_sat x); mask_of (v_children x); mask_of (v_pending x); mask_of (v_waiting x);
-               mask_of (v_bound x)]
-  end.
-
-Definition encode_obs (G : nat) (o : obs) : list Z :=
-  let '(r, v) := o in
-  [o_res r; mask_of (o_allowed r); mask_of (o_rejected r); mask_of (sv_fw v)]
-  ++ flat_map (fun g => encode_gview (vget v g)) (range1 G).
-
-Definition run_case (inp : list Z) : list Z :=
-  let '(h, ops) := decode inp in
-  flat_map (encode_obs (Z.to_nat (h_ngangs h))) (run h ops).
-
-(* ---- decoding of the implementation's observations ---- *)
-Fixpoint decode_gviews (G : nat) (k : nat) (g : Z) (l : list Z) : list (Z * gview) * list Z :=
-  match k, l with
-  | S k', ex :: ini :: st :: pol :: mn :: gm :: crd :: sat :: ch :: pe :: wa :: bo :: t =>
-      let '(r, rest) := decode_gviews G k' (g + 1) t in
-      ((if zb ex
-        then (g, mkGview (zb ini) (zb st) pol mn
-                   (mask_group G gm ++ (if Z.testbit gm 20 then [-1] else []))
-                   (zb crd) (zb sat) (bits ch) (bits pe) (bits wa) (bits bo)) :: r
-        else r), rest)
-  | _, _ => ([], l)
-  end.
-
-Fixpoint decode_obs (G : nat) (n : nat) (l : list Z) : list obs :=
-  match n, l with
-  | S n', res :: al :: rj :: fw :: t =>
-      if Nat.ltb (length t) (12 * G) then []
-      else let '(gs, rest) := decode_gviews G G 1 t in
-           (mkOut res (bits al) (bits rj), mkSview (bits fw) gs) :: decode_obs G n' rest
-  | _, _ => []
-  end.
-
-(* the property decided on the IMPLEMENTATION's observable *)
-Definition prop_case (inp obs : list Z) : Z :=
-  let '(h, ops) := decode inp in
-  prop_code h ops (decode_obs (Z.to_nat (h_ngangs h)) (length ops) obs).
-
-(* some Permit released at least one parked pod, or some roll-back rejected at least one *)
-Definition nontrivial_case (inp : list Z) : bool :=
-  let '(h, ops) := decode inp in
-  existsb (fun o => negb (is_nil (o_allowed (fst o))) || negb (is_nil (o_rejected (fst o)))) (run h ops).
-
-Definition finding_sig (inp obs : list Z) : Z := 0.
-
+(* C04 — stream "history": entry points for the generic OCaml driver (definitions in Codec.v). *)
+From Verif Require Import C04.Codec.
 Require Extraction.
 Require Import ExtrOcamlBasic.
 Extraction "model.ml" run_case prop_case nontrivial_case finding_sig.
